@@ -368,6 +368,53 @@ def errclass(e):
     return 7
 
 
+
+# ----------------------------------------------------------------------------
+# source pins: where did /repo change since the models were last validated?
+# ----------------------------------------------------------------------------
+
+HELPER_FILES = {'utils.py', 'core.py', 'svd.py', 'transformation.py', 'tensors.py', 'act_one.py', 'act_two.py', 'act_many.py',
+                'maxvol.py', 'grid.py', 'props.py', 'data.py'}
+
+
+def source_hashes():
+    """sha1 of ast.dump of every teneva/*.py of the working tree, docstrings removed"""
+    import glob
+    out = {}
+    for f in sorted(glob.glob(os.path.join(REPO, 'teneva', '*.py'))):
+        try:
+            tree = ast.parse(open(f).read())
+            for node in ast.walk(tree):
+                if isinstance(node, (ast.FunctionDef, ast.ClassDef, ast.Module, ast.AsyncFunctionDef)):
+                    b = node.body
+                    if b and isinstance(b[0], ast.Expr) and isinstance(getattr(b[0], 'value', None), ast.Constant) \
+                            and isinstance(b[0].value.value, str):
+                        node.body = b[1:] or [ast.Pass()]
+            out[os.path.basename(f)] = hashlib.sha1(ast.dump(tree).encode()).hexdigest()
+        except Exception as e:  # unparsable source: counts as changed
+            out[os.path.basename(f)] = 'unparsable: ' + repr(e)[:80]
+    return out
+
+
+def source_changed():
+    """files whose AST differs from harness/source_pins.json (missing pins file: everything counts as unchanged)"""
+    p = os.path.join(VERIF, 'harness', 'source_pins.json')
+    if not os.path.exists(p):
+        return []
+    pins = json.load(open(p))
+    cur = source_hashes()
+    return sorted(f for f in set(pins) | set(cur) if pins.get(f) != cur.get(f))
+
+
+def escalate_for(pid, changed):
+    """does a change of these files concern property pid (its anchor files or the widely used helper modules)?"""
+    try:
+        props = [json.loads(l) for l in open(os.path.join(VERIF, 'properties.jsonl'))]
+        anchors = {os.path.basename(f) for p in props if p['id'] == pid for f in p['anchors'].get('files', [])}
+    except Exception:
+        anchors = set()
+    return bool(set(changed) & (anchors | HELPER_FILES))
+
 # ----------------------------------------------------------------------------
 # known findings, evidence, verdict
 # ----------------------------------------------------------------------------
